@@ -1,6 +1,7 @@
 #!/usr/bin/env python3
 """Markdown table of the seeded changes and which check reports them (from seeded/*/meta.json + verified.json)."""
-import glob, json, os, re
+import glob, json, os, re, sys
+COMPACT = "--compact" in sys.argv
 VERIF = os.path.dirname(os.path.dirname(os.path.abspath(__file__)))
 rows = []
 for d in sorted(glob.glob(os.path.join(VERIF, "seeded", "*"))):
@@ -32,7 +33,16 @@ for d in sorted(glob.glob(os.path.join(VERIF, "seeded", "*"))):
                  "demo %s→%s; suite: %s" % (v.get("demo_without_patch_rc", "?"), v.get("demo_with_patch_rc", "?"),
                                              suite[0].split(",")[0] if suite[0] else "not re-run"),
                  "<br>".join(checks) or "not run yet"))
-print("| seed | property | change | needs | verified | result of ./check against it |")
-print("|---|---|---|---|---|---|")
-for r in rows:
-    print("| " + " | ".join(x.replace("|", "\\|") for x in r) + " |")
+if COMPACT:
+    print("(full descriptions — what each change does, what it needs, how it was verified — are in `seeded/INDEX.md` and in"
+          " each seed's `meta.json` / `verified.json`)\n")
+    print("| seed | change (abridged) | result of ./check against it |")
+    print("|---|---|---|")
+    for r in rows:
+        res = r[5].replace("<br>", "; ")
+        print("| %s | %s | %s |" % (r[0], r[2][:110].replace("|", "\\|"), res[:170].replace("|", "\\|")))
+else:
+    print("| seed | property | change | needs | verified | result of ./check against it |")
+    print("|---|---|---|---|---|---|")
+    for r in rows:
+        print("| " + " | ".join(x.replace("|", "\\|") for x in r) + " |")
